@@ -484,3 +484,359 @@ Proof. intros H1 H2. apply typedn_ref. exists s. split; assumption. Qed.
 Lemma ty_annot n e lt s a : typedn n e s a -> typedn (S n) e (SAnnot lt s) a.
 Proof. intros H. apply typedn_annot. exact H. Qed.
 
+
+(** *** the JSON reading of a default and the binary writer's elaboration of it *)
+Section DE.
+  Variable rd : schema -> pyval -> res aval.
+  Variable re : schema -> pyval -> wres aval.
+  Variable db : schema -> pyval -> bool.
+  Hypothesis H : forall s x a, rd s x = Ok a -> db s x = true -> re s x = WOk a.
+
+  Lemma items_de s : forall l r, dflt_items rd s l = Ok r -> forallb (db s) l = true -> elab_items re s l = WOk r.
+  Proof.
+    induction l as [|x l IH]; intros r Hd Hb; cbn [dflt_items elab_items forallb] in *; [injection Hd as <-; reflexivity|].
+    apply andb_prop in Hb. destruct Hb as [Hx Hl].
+    destruct (rd s x) as [a| |] eqn:Ex; cbn [bind] in Hd; try discriminate.
+    destruct (dflt_items rd s l) as [r'| |] eqn:El; cbn [bind] in Hd; try discriminate. injection Hd as <-.
+    rewrite (H _ _ _ Ex Hx). cbn [wbind]. rewrite (IH r' eq_refl Hl). reflexivity.
+  Qed.
+
+  Lemma map_de s : forall kv r, dflt_map rd s kv = Ok r -> forallb (fun p => db s (snd p)) kv = true -> elab_map re s kv = WOk r.
+  Proof.
+    induction kv as [|[k x] kv IH]; intros r Hd Hb; cbn [dflt_map elab_map forallb snd] in *; [injection Hd as <-; reflexivity|].
+    apply andb_prop in Hb. destruct Hb as [Hx Hl]. destruct k; try discriminate.
+    destruct (rd s x) as [a| |] eqn:Ex; cbn [bind] in Hd; try discriminate.
+    destruct (dflt_map rd s kv) as [r'| |] eqn:El; cbn [bind] in Hd; try discriminate. injection Hd as <-.
+    rewrite (H _ _ _ Ex Hx). cbn [wbind]. rewrite (IH r' eq_refl Hl). reflexivity.
+  Qed.
+
+  (* float(datum_value) for fields typed "float"/"double": the coerced datum has the same reading *)
+  Hypothesis Hc : forall s x a, (s = SFloat \/ s = SDouble) -> rd s x = Ok a ->
+    exists b, to_double x = WOk b /\ rd s (PFloat b) = Ok a /\ db s (PFloat b) = true.
+
+  Lemma fields_de kv : forall fs r, dflt_fields rd kv fs = Ok r ->
+    forallb (fun fd => match dict_get kv (fname fd) with
+                       | Some x => db (ftype fd) x
+                       | None => match fdefault fd with Some d => db (ftype fd) d | None => false end
+                       end) fs = true ->
+    elab_fields re wo0 kv fs = WOk r.
+  Proof.
+    induction fs as [|fd fs IH]; intros r Hd Hb; cbn [dflt_fields elab_fields forallb] in *; [injection Hd as <-; reflexivity|].
+    apply andb_prop in Hb. destruct Hb as [Hx Hl]. unfold key_in. cbn [strict strict_allow_default wo0 orb andb].
+    rewrite !andb_false_r. cbn [andb orb].
+    destruct (dflt_fields rd kv fs) as [r'| |] eqn:El.
+    2,3: destruct (match dict_get kv (fname fd) with Some v => rd (ftype fd) v | None => match fdefault fd with Some d => rd (ftype fd) d | None => Err end end); cbn [bind] in Hd; discriminate.
+    specialize (IH r' eq_refl Hl).
+    set (v := match dict_get kv (fname fd) with Some v => v | None => match fdefault fd with Some d => d | None => PNone end end).
+    assert (Hv : exists a, rd (ftype fd) v = Ok a /\ db (ftype fd) v = true /\ r = a :: r' /\
+                 (negb (match dict_get kv (fname fd) with Some _ => true | None => false end) &&
+                  negb (match fdefault fd with Some _ => true | None => false end) && negb (nullok (ftype fd))) = false).
+    { subst v. destruct (dict_get kv (fname fd)) as [x|] eqn:Eg.
+      - destruct (rd (ftype fd) x) as [a| |] eqn:Ex; cbn [bind] in Hd; try discriminate. injection Hd as <-.
+        exists a. repeat split; try assumption.
+      - destruct (fdefault fd) as [d|] eqn:Ed; [|cbn [bind] in Hd; discriminate].
+        destruct (rd (ftype fd) d) as [a| |] eqn:Ex; cbn [bind] in Hd; try discriminate. injection Hd as <-.
+        exists a. repeat split; try assumption. }
+    destruct Hv as (a & Ha & Hdb & -> & Hcond). rewrite Hcond.
+    assert (Hgoal : forall v', re (ftype fd) v' = WOk a ->
+              (let+ a0 := re (ftype fd) v' in let+ r0 := elab_fields re wo0 kv fs in WOk (a0 :: r0)) = WOk (a :: r')).
+    { intros v' Hv'. rewrite Hv'. cbn [wbind]. rewrite IH. reflexivity. }
+    destruct (ftype fd) eqn:Et; cbn [wbind]; try (apply Hgoal; apply H; assumption).
+    - destruct (Hc SFloat v a (or_introl eq_refl) Ha) as (b & Hb1 & Hb2 & Hb3). rewrite Hb1. cbn [wbind]. apply Hgoal. apply H; assumption.
+    - destruct (Hc SDouble v a (or_intror eq_refl) Ha) as (b & Hb1 & Hb2 & Hb3). rewrite Hb1. cbn [wbind]. apply Hgoal. apply H; assumption.
+  Qed.
+End DE.
+Lemma coerce_float f e s x a : (s = SFloat \/ s = SDouble) -> dflt f e s x = Ok a ->
+  exists b, to_double x = WOk b /\ dflt f e s (PFloat b) = Ok a /\ dflt_bin f e s (PFloat b) = true.
+Proof.
+  intros Hs Hd. destruct f as [|f]; [discriminate|].
+  destruct Hs as [-> | ->]; cbn [dflt dflt_bin] in *.
+  - destruct x; cbn [num_double bind] in Hd; try discriminate.
+    + destruct (z2d z) as [b| |] eqn:Ez; cbn [bind] in Hd; try discriminate. exists b. cbn [to_double]. rewrite Ez. cbn [of_res num_double bind].
+      repeat split; try reflexivity. exact Hd.
+    + exists bits. repeat split; try reflexivity. exact Hd.
+  - destruct x; cbn [num_double bind] in Hd; try discriminate.
+    + destruct (z2d z) as [b| |] eqn:Ez; cbn [bind] in Hd; try discriminate. exists b. cbn [to_double]. rewrite Ez. cbn [of_res num_double bind].
+      repeat split; try reflexivity. exact Hd.
+    + exists bits. repeat split; try reflexivity. exact Hd.
+Qed.
+
+Theorem dflt_elab : forall f e s v a, dflt f e s v = Ok a -> dflt_bin f e s v = true -> elab f wo0 e s v = WOk a.
+Proof.
+  induction f as [|f IH]; intros e s v a Hd Hb; [discriminate|].
+  destruct s; cbn [JsonCodec.dflt dflt_bin elab] in *; try discriminate.
+  - destruct v; try discriminate. injection Hd as <-. reflexivity.
+  - destruct v; try discriminate. injection Hd as <-. reflexivity.
+  - destruct v; try discriminate. destruct ((INT_MIN <=? z) && (z <=? INT_MAX)); [injection Hd as <-; reflexivity|discriminate].
+  - destruct v; try discriminate. destruct ((LONG_MIN <=? z) && (z <=? LONG_MAX)); [injection Hd as <-; reflexivity|discriminate].
+  - destruct v; cbn [num_double bind] in Hd; try discriminate.
+    + cbn [to_double]. destruct (z2d z) as [b| |]; cbn [bind of_res wbind] in *; try discriminate.
+      destruct (d2s b) as [x| |]; cbn [bind of_res wbind] in *; try discriminate. injection Hd as <-. reflexivity.
+    + cbn [to_double wbind]. destruct (d2s bits) as [x| |]; cbn [bind of_res wbind] in *; try discriminate. injection Hd as <-. reflexivity.
+  - destruct v; cbn [num_double bind] in Hd; try discriminate.
+    + cbn [to_double]. destruct (z2d z) as [b| |]; cbn [bind of_res wbind] in *; try discriminate. injection Hd as <-. reflexivity.
+    + cbn [to_double wbind]. injection Hd as <-. reflexivity.
+  - destruct v; try discriminate. injection Hd as <-. reflexivity.
+  - destruct v; try discriminate. destruct (index_of syms s 0); [injection Hd as <-; reflexivity|discriminate].
+  - destruct v; try discriminate.
+    destruct (dflt_items (dflt f e) s l) as [r| |] eqn:El; cbn [bind] in Hd; try discriminate. injection Hd as <-.
+    rewrite (items_de (dflt f e) (elab f wo0 e) (dflt_bin f e) (IH e) s l r El Hb). reflexivity.
+  - destruct v; try discriminate.
+    destruct (dflt_map (dflt f e) s kv) as [r| |] eqn:El; cbn [bind] in Hd; try discriminate. injection Hd as <-.
+    rewrite (map_de (dflt f e) (elab f wo0 e) (dflt_bin f e) (IH e) s kv r El Hb). reflexivity.
+  - destruct bs as [|b bs]; [discriminate|].
+    apply andb_prop in Hb. destruct Hb as [Hb Hb3]. apply andb_prop in Hb. destruct Hb as [Hb1 Hb2].
+    destruct (dflt f e b v) as [a0| |] eqn:Ea; cbn [bind] in Hd; try discriminate. injection Hd as <-.
+    destruct (choose (fun c x => validate f wo0 e c (Some x)) e v (b :: bs) 0 (-1) (-1) false) as [i| |] eqn:Ec; try discriminate.
+    destruct i; try discriminate.
+    assert (Hgo : (let+ i := of_res (Ok 0) in if i <? 0 then WErr else
+                   match nthZ (b :: bs) i with Some b0 => let+ a := elab f wo0 e b0 v in WOk (AUnion i a) | None => WErr end) = WOk (AUnion 0 a0)).
+    { cbn [of_res wbind nthZ]. change (0 <? 0) with false. change (0 =? 0) with true. cbn iota. rewrite (IH e b v a0 Ea Hb3). reflexivity. }
+    destruct v; cbn [is_tuple negb] in Hb1; try discriminate; exact Hgo.
+  - destruct v; try discriminate.
+    destruct (dflt_fields (dflt f e) kv fs) as [r| |] eqn:El; cbn [bind] in Hd; try discriminate. injection Hd as <-.
+    cbn [strict strict_allow_default wo0 orb andb].
+    rewrite (fields_de (dflt f e) (elab f wo0 e) (dflt_bin f e) (IH e) (coerce_float f e) kv fs r El Hb). reflexivity.
+  - destruct (lookup e n) as [s'|]; [|discriminate]. apply IH; assumption.
+  - apply IH; assumption.
+Qed.
+
+(** a sufficient condition for the union clause of [dflt_bin]: the first branch accepts the default and is neither a record
+    (the search would go on looking for a record sharing more fields) nor float (it would go on looking for double) *)
+Lemma choose_first val e v b bs : hint_pass e v b = true -> val b v = Ok true ->
+  match (match strip b with SRef n => match lookup e n with Some d => strip d | None => strip b end | d => d end) with
+  | SRecord _ _ _ | SFloat => False | _ => True end ->
+  choose val e v (b :: bs) 0 (-1) (-1) false = Ok 0.
+Proof.
+  intros Hh Hv Hk. cbn [choose]. rewrite Hh, Hv. cbn [negb bind].
+  destruct (match strip b with SRef n => match lookup e n with Some d => strip d | None => strip b end | d => d end); try reflexivity; contradiction.
+Qed.
+
+(** what the binary writer elaborates for a record datum that omits a defaulted field *)
+Lemma elab_fields_omitted re kv : forall fs l, elab_fields re wo0 kv fs = WOk l ->
+  forall i fd d, nth_error fs i = Some fd -> dict_get kv (fname fd) = None -> fdefault fd = Some d ->
+  exists a, nth_error l i = Some a /\
+    match ftype fd with
+    | SFloat | SDouble => exists b, to_double d = WOk b /\ re (ftype fd) (PFloat b) = WOk a
+    | _ => re (ftype fd) d = WOk a
+    end.
+Proof.
+  induction fs as [|f0 fs IH]; intros l He i fd d Hn Hg Hd; [destruct i; discriminate|].
+  cbn [elab_fields] in He. cbn [strict strict_allow_default wo0 orb andb] in He. rewrite !andb_false_r in He. cbn [andb orb] in He.
+  destruct (negb (key_in kv (fname f0)) && negb (match fdefault f0 with Some _ => true | None => false end) && negb (nullok (ftype f0))); [discriminate|].
+  set (v := match dict_get kv (fname f0) with Some v => v | None => match fdefault f0 with Some d => d | None => PNone end end) in He.
+  destruct (match ftype f0 with SFloat | SDouble => let+ b := to_double v in WOk (PFloat b) | _ => WOk v end) as [v'| | |] eqn:Ev; cbn [wbind] in He; try discriminate.
+  destruct (re (ftype f0) v') as [a0| | |] eqn:Ea; cbn [wbind] in He; try discriminate.
+  destruct (elab_fields re wo0 kv fs) as [r| | |] eqn:Er; cbn [wbind] in He; try discriminate. injection He as <-.
+  destruct i as [|i]; cbn [nth_error] in Hn.
+  - injection Hn as <-. exists a0. split; [reflexivity|]. subst v. rewrite Hg, Hd in Ev.
+    destruct (ftype f0); try (injection Ev as <-; exact Ea).
+    + destruct (to_double d) as [b| | |]; cbn [wbind] in Ev; try discriminate. injection Ev as <-. exists b. split; [reflexivity|exact Ea].
+    + destruct (to_double d) as [b| | |]; cbn [wbind] in Ev; try discriminate. injection Ev as <-. exists b. split; [reflexivity|exact Ea].
+  - exact (IH r eq_refl i fd d Hn Hg Hd).
+Qed.
+
+(** C15_defaults in the normal form of the binary codec: the value json_reader supplies for an absent key is the wire value
+    the binary writer elaborates when the datum omits that field *)
+Theorem json_defaults_binary f e nm al fs kv l i fd d dv :
+  nodupb (map (fun f => fname f) fs) = true ->
+  json_dec (S f) e (SRecord nm al fs) (JvObj kv) = Ok (ARecord l) ->
+  nth_error fs i = Some fd -> fdefault fd = Some d -> dflt f e (ftype fd) d = Ok dv -> dflt_bin f e (ftype fd) d = true ->
+  json_dec (S f) e (SRecord nm al fs) (JvObj (jremove (fname fd) kv)) = Ok (ARecord (set_nth i dv l)) /\
+  elab f wo0 e (ftype fd) d = WOk dv /\
+  (forall dk l', dict_get dk (fname fd) = None -> elab (S f) wo0 e (SRecord nm al fs) (PDict dk) = WOk (ARecord l') ->
+     nth_error l' i = Some dv).
+Proof.
+  intros Hnd Hj Hn Hdef Hdv Hb. split; [|split].
+  - exact (proj1 (json_defaults f e nm al fs kv l Hnd Hj i fd Hn) d dv Hdef Hdv).
+  - apply dflt_elab; assumption.
+  - intros dk l' Hg He. cbn [elab] in He. cbn [strict strict_allow_default wo0 orb andb] in He.
+    destruct (elab_fields (elab f wo0 e) wo0 dk fs) as [r| | |] eqn:Er; cbn [wbind] in He; try discriminate. injection He as <-.
+    destruct (elab_fields_omitted (elab f wo0 e) dk fs r Er i fd d Hn Hg Hdef) as (a & Ha & Hm). rewrite Ha. f_equal.
+    assert (Hplain : elab f wo0 e (ftype fd) d = WOk dv) by (apply dflt_elab; assumption).
+    destruct (ftype fd) eqn:Et; try (rewrite Hplain in Hm; injection Hm as <-; reflexivity).
+    + destruct Hm as (b & Hb1 & Hb2). destruct (coerce_float f e SFloat d dv (or_introl eq_refl) Hdv) as (b' & Hc1 & Hc2 & Hc3).
+      rewrite Hb1 in Hc1. injection Hc1 as <-. rewrite (dflt_elab f e SFloat (PFloat b) dv Hc2 Hc3) in Hb2. injection Hb2 as <-. reflexivity.
+    + destruct Hm as (b & Hb1 & Hb2). destruct (coerce_float f e SDouble d dv (or_intror eq_refl) Hdv) as (b' & Hc1 & Hc2 & Hc3).
+      rewrite Hb1 in Hc1. injection Hc1 as <-. rewrite (dflt_elab f e SDouble (PFloat b) dv Hc2 Hc3) in Hb2. injection Hb2 as <-. reflexivity.
+Qed.
+
+(** *** stream behaviour *)
+Lemma stream_app f ro e s : forall d1 d2 vs, json_read_stream f ro e s d1 = (vs, Ok tt) ->
+  json_read_stream f ro e s (d1 ++ d2) = (vs ++ fst (json_read_stream f ro e s d2), snd (json_read_stream f ro e s d2)).
+Proof.
+  induction d1 as [|j d1 IH]; intros d2 vs H; cbn [json_read_stream app] in *.
+  - injection H as <-. destruct (json_read_stream f ro e s d2); reflexivity.
+  - destruct (json_read f ro e s j) as [v| |]; try (injection H as _ H; discriminate).
+    destruct (json_read_stream f ro e s d1) as [vs1 r1] eqn:E1. injection H as <- ->.
+    rewrite (IH d2 vs1 eq_refl). reflexivity.
+Qed.
+
+(* prefix-closed: the records yielded for the first documents do not depend on what follows, and a document that fails to decode
+   cuts the output exactly there *)
+Theorem stream_prefix f ro e s d1 d2 vs : json_read_stream f ro e s d1 = (vs, Ok tt) ->
+  exists ws, fst (json_read_stream f ro e s (d1 ++ d2)) = vs ++ ws.
+Proof. intros H. rewrite (stream_app f ro e s d1 d2 vs H). eexists. reflexivity. Qed.
+
+Theorem stream_cut f ro e s d1 bad d2 vs : json_read_stream f ro e s d1 = (vs, Ok tt) -> json_read f ro e s bad = Err ->
+  json_read_stream f ro e s (d1 ++ bad :: d2) = (vs, Err).
+Proof.
+  intros H Hb. rewrite (stream_app f ro e s d1 (bad :: d2) vs H). cbn [json_read_stream]. rewrite Hb. cbn [fst snd].
+  rewrite app_nil_r. reflexivity.
+Qed.
+
+(* one document per record, each read exactly once, in order *)
+Theorem stream_roundtrip n e s ro : wf_envb e = true -> wfb s = true -> forall avs js pvs,
+  Forall2 (fun a j => typedn n e s a /\ float_leaves_ok a = true /\ json_enc e s a = Some j) avs js ->
+  Forall2 (fun a pv => py_of ro e s a = Some pv) avs pvs ->
+  forall f, (n <= f)%nat -> json_read_stream f ro e s js = (pvs, Ok tt).
+Proof.
+  intros Hwe Hws avs js pvs H. revert pvs.
+  induction H as [|a j avs js (Ht & Hfl & He) _ IH]; intros pvs Hp f Hf; inversion Hp; subst; cbn [json_read_stream]; [reflexivity|].
+  match goal with Hpy : py_of ro e s a = Some ?pv |- _ =>
+    rewrite (proj1 (json_binary_agree n e s a j ro pv Hwe Hws Ht Hfl He Hpy f Hf)) end.
+  match goal with Hrest : Forall2 _ avs ?l' |- _ => rewrite (IH l' Hrest f Hf) end. reflexivity.
+Qed.
+
+(** *** every member of a document is consumed exactly once *)
+Lemma dec_items_length rd s : forall js l, dec_items rd s js = Ok l -> length l = length js.
+Proof.
+  induction js as [|j js IH]; intros l H; cbn [dec_items] in H; [injection H as <-; reflexivity|].
+  destruct (rd s j); cbn [bind] in H; try discriminate. destruct (dec_items rd s js) as [r| |]; cbn [bind] in H; try discriminate.
+  injection H as <-. cbn [length]. rewrite (IH r eq_refl). reflexivity.
+Qed.
+
+Lemma dec_map_keys rd s : forall kv l, dec_map rd s kv = Ok l -> map fst l = map fst kv.
+Proof.
+  induction kv as [|[k j] kv IH]; intros l H; cbn [dec_map fst snd] in H; [injection H as <-; reflexivity|].
+  destruct (utf8_valid k); [|discriminate].
+  destruct (rd s j); cbn [bind] in H; try discriminate. destruct (dec_map rd s kv) as [r| |]; cbn [bind] in H; try discriminate.
+  injection H as <-. cbn [map fst]. rewrite (IH r eq_refl). reflexivity.
+Qed.
+
+(* a record object is read through its field names only: member order and members that are not fields do not matter *)
+Lemma dec_fields_ext rd dfl kv kv' : forall fs, (forall fd, In fd fs -> jlookup kv (fname fd) = jlookup kv' (fname fd)) ->
+  dec_fields rd dfl kv fs = dec_fields rd dfl kv' fs.
+Proof.
+  induction fs as [|fd fs IH]; intros H; cbn [dec_fields]; [reflexivity|].
+  unfold dec_field. rewrite (H fd (or_introl eq_refl)). rewrite IH by (intros fd' Hin; apply H; right; exact Hin). reflexivity.
+Qed.
+
+Theorem json_dec_shape f e :
+  (forall it js l, json_dec (S f) e (SArray it) (JvArr js) = Ok (AArray l) -> length l = length js) /\
+  (forall vs kv l, json_dec (S f) e (SMap vs) (JvObj kv) = Ok (AMap l) -> map fst l = map fst kv) /\
+  (forall nm al fs kv kv', (forall fd, In fd fs -> jlookup kv (fname fd) = jlookup kv' (fname fd)) ->
+     json_dec (S f) e (SRecord nm al fs) (JvObj kv) = json_dec (S f) e (SRecord nm al fs) (JvObj kv')) /\
+  (forall bs kv, (length kv <> 1)%nat -> json_dec (S f) e (SUnion bs) (JvObj kv) = Err).
+Proof.
+  repeat split.
+  - intros it js l H. cbn [json_dec] in H. destruct (dec_items (json_dec f e) it js) as [r| |] eqn:E; cbn [bind] in H; try discriminate.
+    injection H as <-. exact (dec_items_length _ _ _ _ E).
+  - intros vs kv l H. cbn [json_dec] in H. destruct (dec_map (json_dec f e) vs kv) as [r| |] eqn:E; cbn [bind] in H; try discriminate.
+    injection H as <-. exact (dec_map_keys _ _ _ _ E).
+  - intros nm al fs kv kv' H. cbn [json_dec]. rewrite (dec_fields_ext _ _ kv kv' fs H). reflexivity.
+  - intros bs kv H. cbn [json_dec]. destruct kv as [|[k x] [|p kv]]; try reflexivity. cbn [length] in H. lia.
+Qed.
+
+(** *** more fuel never changes a result *)
+Definition jmono {A B} (r1 r2 : A -> res B) := forall x y, r1 x = Ok y -> r2 x = Ok y.
+
+Lemma dec_items_mono r1 r2 s : jmono (r1 s) (r2 s) -> jmono (dec_items r1 s) (dec_items r2 s).
+Proof.
+  intros Hm js. induction js as [|j js IH]; intros l H; cbn [dec_items] in *; [exact H|].
+  destruct (r1 s j) as [a| |] eqn:Ea; cbn [bind] in H; try discriminate. rewrite (Hm _ _ Ea). cbn [bind].
+  destruct (dec_items r1 s js) as [r| |]; cbn [bind] in H; try discriminate. rewrite (IH r eq_refl). exact H.
+Qed.
+
+Lemma dec_map_mono r1 r2 s : jmono (r1 s) (r2 s) -> jmono (dec_map r1 s) (dec_map r2 s).
+Proof.
+  intros Hm kv. induction kv as [|[k j] kv IH]; intros l H; cbn [dec_map fst snd] in *; [exact H|].
+  destruct (utf8_valid k); [|discriminate].
+  destruct (r1 s j) as [a| |] eqn:Ea; cbn [bind] in H; try discriminate. rewrite (Hm _ _ Ea). cbn [bind].
+  destruct (dec_map r1 s kv) as [r| |]; cbn [bind] in H; try discriminate. rewrite (IH r eq_refl). exact H.
+Qed.
+
+Lemma dec_fields_mono r1 r2 d1 d2 kv : (forall s, jmono (r1 s) (r2 s)) -> (forall s, jmono (d1 s) (d2 s)) ->
+  forall fs l, dec_fields r1 d1 kv fs = Ok l -> dec_fields r2 d2 kv fs = Ok l.
+Proof.
+  intros Hr Hd. induction fs as [|fd fs IH]; intros l H; cbn [dec_fields] in *; [exact H|].
+  destruct (dec_field r1 d1 kv fd) as [a| |] eqn:Ea; cbn [bind] in H; try discriminate.
+  assert (Ha : dec_field r2 d2 kv fd = Ok a).
+  { unfold dec_field in *. destruct (jlookup kv (fname fd)); [apply Hr; exact Ea|]. destruct (fdefault fd); [apply Hd; exact Ea|discriminate]. }
+  rewrite Ha. cbn [bind]. destruct (dec_fields r1 d1 kv fs) as [r| |]; cbn [bind] in H; try discriminate. rewrite (IH r eq_refl). exact H.
+Qed.
+
+Lemma dflt_items_mono r1 r2 s : jmono (r1 s) (r2 s) -> jmono (dflt_items r1 s) (dflt_items r2 s).
+Proof.
+  intros Hm l. induction l as [|x l IH]; intros r H; cbn [dflt_items] in *; [exact H|].
+  destruct (r1 s x) as [a| |] eqn:Ea; cbn [bind] in H; try discriminate. rewrite (Hm _ _ Ea). cbn [bind].
+  destruct (dflt_items r1 s l) as [r'| |]; cbn [bind] in H; try discriminate. rewrite (IH r' eq_refl). exact H.
+Qed.
+
+Lemma dflt_map_mono r1 r2 s : jmono (r1 s) (r2 s) -> jmono (dflt_map r1 s) (dflt_map r2 s).
+Proof.
+  intros Hm kv. induction kv as [|[k x] kv IH]; intros r H; cbn [dflt_map] in *; [exact H|]. destruct k; try discriminate.
+  destruct (r1 s x) as [a| |] eqn:Ea; cbn [bind] in H; try discriminate. rewrite (Hm _ _ Ea). cbn [bind].
+  destruct (dflt_map r1 s kv) as [r'| |]; cbn [bind] in H; try discriminate. rewrite (IH r' eq_refl). exact H.
+Qed.
+
+Lemma dflt_fields_mono r1 r2 kv : (forall s, jmono (r1 s) (r2 s)) -> forall fs l, dflt_fields r1 kv fs = Ok l -> dflt_fields r2 kv fs = Ok l.
+Proof.
+  intros Hr. induction fs as [|fd fs IH]; intros l H; cbn [dflt_fields] in *; [exact H|].
+  set (x1 := match dict_get kv (fname fd) with Some v => r1 (ftype fd) v | None => match fdefault fd with Some d => r1 (ftype fd) d | None => Err end end) in *.
+  destruct x1 as [a| |] eqn:Ea; cbn [bind] in H; try discriminate.
+  assert (Ha : match dict_get kv (fname fd) with Some v => r2 (ftype fd) v | None => match fdefault fd with Some d => r2 (ftype fd) d | None => Err end end = Ok a).
+  { subst x1. destruct (dict_get kv (fname fd)); [apply Hr; exact Ea|]. destruct (fdefault fd); [apply Hr; exact Ea|discriminate]. }
+  rewrite Ha. cbn [bind]. destruct (dflt_fields r1 kv fs) as [r| |]; cbn [bind] in H; try discriminate. rewrite (IH r eq_refl). exact H.
+Qed.
+
+Lemma dflt_mono : forall f f' e s, (f <= f')%nat -> jmono (dflt f e s) (dflt f' e s).
+Proof.
+  induction f as [|f IH]; intros f' e s Hf v a H; [discriminate|].
+  destruct f' as [|f']; [lia|]. assert (Hf' : (f <= f')%nat) by lia.
+  destruct s; cbn [JsonCodec.dflt] in H |- *; try exact H.
+  - destruct v; try discriminate. destruct (dflt_items (dflt f e) s l) as [r| |] eqn:E; cbn [bind] in H; try discriminate.
+    rewrite (dflt_items_mono _ _ s (IH f' e s Hf') l r E). exact H.
+  - destruct v; try discriminate. destruct (dflt_map (dflt f e) s kv) as [r| |] eqn:E; cbn [bind] in H; try discriminate.
+    rewrite (dflt_map_mono _ _ s (IH f' e s Hf') kv r E). exact H.
+  - destruct bs as [|b bs]; [discriminate|]. destruct (dflt f e b v) as [a0| |] eqn:E; cbn [bind] in H; try discriminate.
+    rewrite (IH f' e b Hf' v a0 E). exact H.
+  - destruct v; try discriminate. destruct (dflt_fields (dflt f e) kv fs) as [r| |] eqn:E; cbn [bind] in H; try discriminate.
+    rewrite (dflt_fields_mono _ _ kv (fun s0 => IH f' e s0 Hf') fs r E). exact H.
+  - destruct (lookup e n); [|discriminate]. apply (IH f' e s Hf'). exact H.
+  - apply (IH f' e s Hf'). exact H.
+Qed.
+
+Theorem json_dec_fuel_mono : forall f f' e s, (f <= f')%nat -> jmono (json_dec f e s) (json_dec f' e s).
+Proof.
+  induction f as [|f IH]; intros f' e s Hf j a H; [discriminate|].
+  destruct f' as [|f']; [lia|]. assert (Hf' : (f <= f')%nat) by lia.
+  destruct s; cbn [json_dec] in H |- *; try exact H.
+  - destruct j; try discriminate. destruct (dec_items (json_dec f e) s l) as [r| |] eqn:E; cbn [bind] in H; try discriminate.
+    rewrite (dec_items_mono _ _ s (IH f' e s Hf') l r E). exact H.
+  - destruct j; try discriminate. destruct (dec_map (json_dec f e) s kv) as [r| |] eqn:E; cbn [bind] in H; try discriminate.
+    rewrite (dec_map_mono _ _ s (IH f' e s Hf') kv r E). exact H.
+  - destruct j; try discriminate.
+    + destruct (find_null e bs 0) as [i|]; [|discriminate]. destruct (nthZ bs i) as [b|]; [|discriminate].
+      destruct (json_dec f e b JvNull) as [a0| |] eqn:E; cbn [bind] in H; try discriminate. rewrite (IH f' e b Hf' _ a0 E). exact H.
+    + destruct kv as [|[k x] [|p kv]]; try discriminate.
+      destruct (find_label k bs 0) as [i|]; [|discriminate]. destruct (nthZ bs i) as [b|]; [|discriminate].
+      destruct (is_null e b); [discriminate|].
+      destruct (json_dec f e b x) as [a0| |] eqn:E; cbn [bind] in H; try discriminate. rewrite (IH f' e b Hf' _ a0 E). exact H.
+  - destruct j; try discriminate.
+    destruct (dec_fields (json_dec f e) (dflt f e) kv fs) as [r| |] eqn:E; cbn [bind] in H; try discriminate.
+    rewrite (dec_fields_mono _ _ _ _ kv (fun s0 => IH f' e s0 Hf') (fun s0 => dflt_mono f f' e s0 Hf') fs r E). exact H.
+  - destruct (lookup e n); [|discriminate]. apply (IH f' e s Hf'). exact H.
+  - apply (IH f' e s Hf'). exact H.
+Qed.
+
+(** *** two different values never share a document *)
+Theorem json_enc_injective n e s a a' j : wf_envb e = true -> wfb s = true ->
+  typedn n e s a -> typedn n e s a' -> float_leaves_ok a = true -> float_leaves_ok a' = true ->
+  json_enc e s a = Some j -> json_enc e s a' = Some j -> a = a'.
+Proof.
+  intros Hwe Hws Ht Ht' Hf Hf' He He'.
+  pose proof (json_roundtrip n e s a j Hwe Hws Ht Hf He n (le_n n)) as H1.
+  pose proof (json_roundtrip n e s a' j Hwe Hws Ht' Hf' He' n (le_n n)) as H2.
+  rewrite H1 in H2. injection H2 as ->. reflexivity.
+Qed.
